@@ -365,7 +365,7 @@ pub fn arb_sscenario(u: &mut Unstructured, p: &crate::props::sgen::SProfile) -> 
     };
     let w = [
         p.w_step, p.w_drain, p.w_request, p.w_cancel, p.w_complete, p.w_drophandler, p.w_startheld, p.w_dropheld, p.w_advance,
-        p.w_advance_to, p.w_budget, p.w_fault, p.w_peerclose, p.w_dropchannel, p.w_cancel_then_request,
+        p.w_advance_to, p.w_budget, p.w_fault, p.w_peerclose, p.w_dropchannel, p.w_cancel_then_request, p.w_stepcoop,
     ];
     let n = u.int_in_range(0..=p.max_ops.saturating_sub(1))?;
     let mut ops = vec![];
@@ -395,6 +395,7 @@ pub fn arb_sscenario(u: &mut Unstructured, p: &crate::props::sgen::SProfile) -> 
             11 => ops.push(SOp::Fault { op: u.int_in_range(0..=4)?, k: u.int_in_range(0..=11)? }),
             12 => ops.push(SOp::PeerClose),
             13 => ops.push(SOp::DropChannel),
+            15 => ops.push(SOp::StepCoop { sel: u.arbitrary()?, budget: u.int_in_range(0..=5)? }),
             _ => {
                 ops.push(SOp::SendCancel { sel: u.arbitrary()?, unknown: None });
                 ops.push(arb_request(u, p, true)?);
